@@ -58,8 +58,10 @@ for f in sorted(glob.glob('seeded/*/meta.json')):
     n = int(sid.split('-')[1]); r = d.get('confirmed_by_integrator', {}).get('check_result', '?')
     k = 'caught at first run' if r == 'caught' else ('tie/obligation broke, no failing input at first run' if 'no-failing-input-found' in r else ('missed at first run' if 'missed' in r else r))
     rounds.setdefault(n, {}).setdefault(k, []).append(sid)
-seedrows += ['', 'Summary by order of writing (every change listed is reported as a VIOLATION by the committed checks; the column says what',
-             'happened when the change was FIRST run against the checks as they were then):', '',
+seedrows += ['', 'Summary by order of writing.  The final regression (`tools/seedregress.sh`, every patch applied to /repo HEAD, quick tier) ends in',
+             '`VIOLATION ... replay=` for every change whose patch still applies; patches that an accepted `fix:` commit made inapplicable were',
+             'ported by hand by the builders (see `final_regression` in each `seeded/<id>/meta.json`).  The columns say what happened when a',
+             'change was FIRST run against the checks as they were then:', '',
              '| n-th change per property | caught at first run | tie/obligation broke, no failing input at first run | missed at first run |', '|---|---|---|---|']
 for n in sorted(rounds):
     g = rounds[n]
